@@ -103,6 +103,10 @@ pub fn generate(tier: Tier, rng: &mut Rng, sink: &mut dyn FnMut(Case)) {
         crate::GEN_PANICKED.store(true, std::sync::atomic::Ordering::SeqCst);
         eprintln!("generator family gen_manytypes panicked");
     }
+    if std::panic::catch_unwind(std::panic::AssertUnwindSafe(|| gen_longlists(&mut g, tier))).is_err() {
+        crate::GEN_PANICKED.store(true, std::sync::atomic::Ordering::SeqCst);
+        eprintln!("generator family gen_longlists panicked");
+    }
     if std::panic::catch_unwind(std::panic::AssertUnwindSafe(|| gen_timed(&mut g, tier))).is_err() {
         crate::GEN_PANICKED.store(true, std::sync::atomic::Ordering::SeqCst);
         eprintln!("generator family gen_timed panicked");
@@ -875,6 +879,95 @@ fn gen_manytypes(g: &mut Gen, tier: Tier) {
             }
         }
         g.emit_b("manytypes-rand", ops, Vec::new());
+    }
+}
+
+/// longlists: few functions whose read / write declarations are longer than the 8 entries a `TypeIds`
+/// holds inline (9..16), next to short ones, over a small universe so that lists overlap; every list
+/// in a random order (the order of the `TypeId`s themselves is unrelated to the type indices).
+/// Sub-families: only reads shared between two long declarations (no edge may appear), one written
+/// type hidden in a long read list of another function, long writer against short reader.
+fn gen_longlists(g: &mut Gen, tier: Tier) {
+    let fo = |fid: u64, rd: Vec<usize>, wr: Vec<usize>| Op::F { fid, rd, wr };
+    let count = match tier {
+        Tier::Quick => 260,
+        Tier::Thorough => 4000,
+    };
+    // a list of `len` distinct types drawn from `pool` (shuffled)
+    fn pick(rng: &mut Rng, pool: &[usize], len: usize) -> Vec<usize> {
+        let mut p = pool.to_vec();
+        rng.shuffle(&mut p);
+        p.truncate(len.min(pool.len()));
+        p
+    }
+    fn len_of(rng: &mut Rng) -> usize {
+        match rng.below(6) {
+            0 => 0,
+            1 => 1 + rng.below(3),
+            2 => 4 + rng.below(5),
+            3 => 9,
+            _ => 9 + rng.below(8),
+        }
+    }
+    // targeted: the single shared type sits at every position of a long list
+    for long_len in [9usize, 10, 13, 16] {
+        for pos in [0usize, 1, long_len / 2, long_len - 2, long_len - 1] {
+            for shape in 0..6 {
+                let shared = 40usize;
+                let mut long: Vec<usize> = (0..long_len - 1).collect();
+                g.rng.shuffle(&mut long);
+                long.insert(pos.min(long.len()), shared);
+                let other: Vec<usize> = (20..20 + long_len).collect();
+                let fid0 = g.rng.below(3) as u64 * 100 + g.rng.below(3) as u64;
+                let fid1 = 1000 + g.rng.below(3) as u64;
+                let ops = match shape {
+                    // long reader, short writer of the shared type (both insertion orders)
+                    0 => vec![fo(fid0, long.clone(), vec![]), fo(fid1, vec![], vec![shared])],
+                    1 => vec![fo(fid1, vec![], vec![shared]), fo(fid0, long.clone(), vec![])],
+                    // long writer, short reader
+                    2 => vec![fo(fid0, vec![], long.clone()), fo(fid1, vec![shared], vec![])],
+                    3 => vec![fo(fid1, vec![shared, 60, 61], vec![]), fo(fid0, vec![62], long.clone())],
+                    // two long readers sharing only reads, one writes something unrelated: no edge
+                    4 => vec![fo(fid0, long.clone(), vec![70]), fo(fid1, {
+                        let mut o = other.clone();
+                        o.push(shared);
+                        o
+                    }, vec![])],
+                    // two long writers sharing one written type
+                    _ => vec![fo(fid0, vec![71], long.clone()), fo(fid1, vec![], {
+                        let mut o = other.clone();
+                        o.insert(pos.min(o.len()), shared);
+                        o
+                    })],
+                };
+                g.emit_b("longlists-pos", ops, Vec::new());
+            }
+        }
+    }
+    for _ in 0..count {
+        let n = 2 + g.rng.below(5);
+        let universe = 10 + g.rng.below(22);
+        let pool: Vec<usize> = (0..universe).collect();
+        let mut ops = Vec::new();
+        for i in 0..n {
+            let rl = len_of(g.rng);
+            let wl = if g.rng.chance(1, 3) { 0 } else { len_of(g.rng) };
+            let all = pick(g.rng, &pool, rl + wl);
+            let rl = rl.min(all.len());
+            let (rd, wr) = all.split_at(rl);
+            let fid = g.rng.below(9) as u64 * 50 + i as u64;
+            ops.push(fo(fid, rd.to_vec(), wr.to_vec()));
+        }
+        // only forward logic or only backward contains edges within one case: never a cycle
+        let fwd = g.rng.chance(1, 2);
+        for _ in 0..g.rng.below(n) {
+            let a = g.rng.below(n);
+            let b = g.rng.below(n);
+            if a < b {
+                ops.push(if fwd { Op::L(a, b) } else { Op::C(b, a) });
+            }
+        }
+        g.emit_b("longlists-rand", ops, Vec::new());
     }
 }
 
